@@ -277,6 +277,77 @@ func c01Run(c *vfCtx, cs c01Case) {
 			return
 		}
 	}
+	// ---- still in that process: every value is replaced by one of the SAME formatted length under Update(true), and the new values
+	// are replayed (a later run replays what the latest recording run stored; a reader that trusts the file size sees no change)
+	same := func(v string) (string, bool) {
+		for _, pr := range [][2]string{{"a", "b"}, {"b", "a"}, {"x", "y"}, {"1", "2"}, {"v", "w"}} {
+			if strings.Contains(v, pr[0]) {
+				return strings.Replace(v, pr[0], pr[1], 1), true
+			}
+		}
+		return "", false
+	}
+	var updTests, newTests []vfTestExec
+	okSame := true
+	for _, te := range cs.Tests {
+		u, n := vfTestExec{Name: te.Name}, vfTestExec{Name: te.Name}
+		for _, cl := range te.Calls {
+			nv, ok := same(cl.Val)
+			if !ok || (cl.API != "snap" && cl.API != "") {
+				okSame = false
+				break
+			}
+			uc, nc := cl, cl
+			uc.Val, uc.Upd, nc.Val = nv, "true", nv
+			u.Calls, n.Calls = append(u.Calls, uc), append(n.Calls, nc)
+		}
+		updTests, newTests = append(updTests, u), append(newTests, n)
+	}
+	if okSame && !vfClassK2(m) {
+		mu := vfNewModel(false, "")
+		mu.files, mu.sfiles = m.files, m.sfiles
+		obs := vfRunTests(dir, mu, updTests)
+		c.count("transitions", int64(len(obs)))
+		for i, o := range obs {
+			if o.Got != o.Want {
+				c.violation(class(), fmt.Sprintf("same-length update in the same process: call %d (%q in %s) signalled %s, model %s: %s", i+1, vfClip(o.Call.Val), o.Test, o.Got, o.Want, vfClip(o.ErrText)), cs)
+				return
+			}
+		}
+		saved := cs.Tests
+		cs2 := cs
+		cs2.Tests = newTests
+		before := vfSnapDir(dir)
+		mr := vfNewModel(false, "")
+		mr.files, mr.sfiles = mu.files, mu.sfiles
+		obs = vfRunTests(dir, mr, newTests)
+		c.count("transitions", int64(len(obs)))
+		for i, o := range obs {
+			if o.Got != "pass" || len(o.Muts) > 0 {
+				c.violation(class(), fmt.Sprintf("after a same-length update in the same process, replay of the updated values: call %d (%q in %s) signalled %s %s, file operations [%s]", i+1, vfClip(o.Call.Val), o.Test, o.Got, vfClip(o.ErrText), vfShowOps(o.Muts)), cs)
+				return
+			}
+		}
+		if d := vfDirDiff(before, vfSnapDir(dir), true); d != "" {
+			c.violation(class(), "replay of the updated values changed the snapshot directory: "+d, cs)
+			return
+		}
+		// restore the recorded values for the permutation phase (same lengths again)
+		var back []vfTestExec
+		for _, te := range saved {
+			b := vfTestExec{Name: te.Name}
+			for _, cl := range te.Calls {
+				bc := cl
+				bc.Upd = "true"
+				b.Calls = append(b.Calls, bc)
+			}
+			back = append(back, b)
+		}
+		mb := vfNewModel(false, "")
+		mb.files, mb.sfiles = mr.files, mr.sfiles
+		vfRunTests(dir, mb, back)
+		m.files, m.sfiles = mb.files, mb.sfiles
+	}
 	// ---- "all pre-existing well-formed contents": the same entries in every other order (all permutations up to 3 entries, reversal and rotation beyond)
 	es, err := vfParse(vfSnapDir(dir)["f.snap"].Data)
 	if err != nil || len(es) < 2 {
